@@ -104,9 +104,9 @@ class Held:
     at_call[bb]      : guards live *during* a call terminator (moved-in arguments excluded)
     """
 
-    def __init__(self, fn):
+    def __init__(self, fn, tracked=None):
         self.fn = fn
-        self.guards = guard_locals(fn)
+        self.guards = guard_locals(fn) if tracked is None else tracked
         self.before = {}
         self.at_term = {}
         self.entry = {}
